@@ -208,6 +208,14 @@ def sign_encrypt_sources(ctx, cg):
     }
     from sa.absint import _known_functions
     known = _known_functions()
+    # a function of the table that moved (another module, imported back; or re-found under another name) keeps its entry
+    for a_, b_ in list(allowed):
+        try:
+            now_ = repo.func(*a_.split(":", 1)).fq
+        except AnalysisError:
+            continue
+        if now_ != a_:
+            allowed.add((now_, b_))
 
     def permitted(fq, what, depth=0):
         if any(fq == a and (what.startswith(b) or b in what) for a, b in allowed):
